@@ -96,3 +96,47 @@ func (c *FakeCarrier) LocalAddr() net.Addr                { return fakeAddr("loc
 func (c *FakeCarrier) SetDeadline(t time.Time) error      { return nil }
 func (c *FakeCarrier) SetReadDeadline(t time.Time) error  { return nil }
 func (c *FakeCarrier) SetWriteDeadline(t time.Time) error { return nil }
+
+// tryRecv is a non-blocking receive (got=false: nothing available).
+func tryRecv(q <-chan []byte) (p []byte, ok bool, got bool) {
+	select {
+	case p, ok = <-q:
+		return p, ok, true
+	default:
+		return nil, false, false
+	}
+}
+
+// sendNB is a non-blocking send.
+func sendNB(q chan []byte, p []byte) bool {
+	select {
+	case q <- p:
+		return true
+	default:
+		return false
+	}
+}
+
+// peek looks at a ClientMap without refreshing the record: is addr present, and is q closed?
+// (A closed queue is recognised without consuming anything only when it is empty; the harness
+// therefore checks closedness by a non-blocking receive on a copy of the state: a closed channel
+// yields ok=false after its buffered packets; packets received are not put back, which is fine at
+// the two observation points the harness uses.)
+func peek(m *ClientMap, addr fakeAddr, q chan []byte) (present bool, closed bool) {
+	m.lock.Lock()
+	_, present = m.inner.byAddr[addr]
+	m.lock.Unlock()
+	if present {
+		return true, false
+	}
+	for {
+		select {
+		case _, ok := <-q:
+			if !ok {
+				return false, true
+			}
+		default:
+			return false, false
+		}
+	}
+}
